@@ -177,6 +177,19 @@ pub fn run(tier: Tier) -> i32 {
         st.push(off);
     }
     let mut r = bfs(&ctx, &C05, &st, depth);
+    let mut tiny = vec![];
+    for s in tiny_starts() {
+        let mut off = s.clone();
+        off.consolidation = false;
+        off.name = format!("{}(consolidation off)", off.name);
+        tiny.push(s);
+        tiny.push(off);
+    }
+    let rt = bfs(&ctx, &C05, &tiny, depth + 1);
+    r.stats = r.stats.merge(rt.stats);
+    r.states += rt.states;
+    r.transitions += rt.transitions;
+    r.levels.extend(rt.levels);
     let sw = sweep_starts(tier);
     let r2 = sweep_depth1(&ctx, &C05, &sw);
     r.stats = r.stats.merge(r2.stats);
@@ -191,7 +204,7 @@ pub fn run(tier: Tier) -> i32 {
         "transitions": r.transitions,
         "traces_validated_against_impl": r.transitions,
         "rule": "states = distinct canonical forests; a transition = one manipulation call on the real Xot with one argument tuple; the reference model MForest predicts the forest after every in-contract call and the full read-back (structure, values, handle identity, liveness, string_value) must match; only states reached by in-contract successful calls are expanded",
-        "bounds": {"bfs_depth": depth, "starts": st.len(), "depth1_sweep_starts": sw.len(), "sweep_max_nodes": 5},
+        "bounds": {"bfs_depth": depth, "starts": st.len(), "tiny_starts_one_level_deeper": tiny.len(), "depth1_sweep_starts": sw.len(), "sweep_max_nodes": 5},
         "levels_completed": r.levels.iter().filter(|l| !l["start"].as_str().unwrap_or("").starts_with("sweep:")).collect::<Vec<_>>(),
     });
     ctx.finish(r.stats, cov, vec!["which node of a merged text run survives is checked only where statement and rustdoc agree (DESIGN 3/C05)".into(), "histories mixing consolidation on and off are C04's".into()])
